@@ -413,7 +413,19 @@ impl Check for C13 {
         } else {
             6
         };
-        let procs: Vec<ProcSpec> = (0..s).map(|_| gen_proc(&mut pr)).collect();
+        let mut procs: Vec<ProcSpec> = (0..s).map(|_| gen_proc(&mut pr)).collect();
+        // legal I/O behaviour as one more thing two runs may differ in: short reads and
+        // interrupted calls while sources and configuration are read (all but the first process)
+        if i % 9 == 5 {
+            let mut qr = r.split("masked-faults");
+            for p in procs.iter_mut().skip(1) {
+                for _ in 0..qr.range(1, 4) {
+                    let at = crate::interpose::FaultAt::Read(qr.below(60) as usize);
+                    let kind = if qr.chance(1, 4) { crate::interpose::FaultKind::Eintr } else { crate::interpose::FaultKind::ShortRead { k: qr.range(1, 48) } };
+                    p.faults.push(crate::interpose::FaultSpec { at, kind });
+                }
+            }
+        }
         let verbose: Vec<bool> = (0..s).map(|_| setup.entry == Entry::Cli && pr.chance(1, 3)).collect();
         let viz_world = pr.chance(1, 2);
         let viz_mixed = pr.chance(1, 3);
@@ -705,8 +717,9 @@ impl Check for C13 {
             out.push(d);
         }
         for k in 0..c.procs.len() {
-            if c.procs[k].chunk_seed.is_some() || !c.procs[k].clock.jumps.is_empty() || c.verbose[k] {
+            if c.procs[k].chunk_seed.is_some() || !c.procs[k].clock.jumps.is_empty() || c.verbose[k] || !c.procs[k].faults.is_empty() {
                 let mut d = c.clone();
+                d.procs[k].faults.clear();
                 d.procs[k].chunk_seed = None;
                 d.procs[k].clock = Default::default();
                 d.verbose[k] = false;
